@@ -10,10 +10,24 @@ Property theorems about `RTV.Model.Preprocess` and `RTV.Model.Span`. The regex e
 of match spans), the Unicode tables are the regenerated ones (`RTV.Gen`).
 
 The chain the property rests on:  `preprocess` keeps the length of the query  →  every sweep / merge emits
-`(start, length, text)` with `0 < length`, `start + length ≤ |query|`, `text = slice`  →  `Model.parse` turns
-that into `end = start + length − 1`, hence `0 ≤ start ≤ end < |query|`.
-The first link is **false for the current code** (whole-string `str.lower()` expands U+0130): negative theorem
-`preprocess_length_current_fails`; it holds for the repaired variant (`preprocess_length`).
+`(start, length, text)` with `start + length ≤ |query|`, `text = slice`, and `0 < length`  →  `Model.parse` turns
+that into `end = start + length − 1`, hence `0 ≤ start ≤ end < |query|` (`model_end`, which NEEDS `0 < length`).
+* The first link was false for the code as found (whole-string `str.lower()` expands U+0130): negative theorem
+  `preprocess_length_current_fails`; it holds for the repaired variant (`preprocess_length`); which variant the tree
+  follows is decided by the unit correspondence each run.
+* `0 < length` is PROVED for the sequence / number / IP sweeps (`sweep_spans*`: maximal runs are non-empty).  On the
+  date-time path it is NOT a property of the merge code: `Token` / `Tok.Inside` / `merge_all_tokens` allow an empty token,
+  which comes out as an ExtractResult of length 0 with `end = start − 1` (`mergeAllTokens_empty_token_witness`).  What is
+  proved: non-empty tokens give non-empty results (`mergeAllTokens_nonempty`), the merged extractor never shrinks an
+  entity (`mergedExtract_nonempty`), and the whole chain in one statement (`datetime_path_span`).  That the sub-extractors'
+  tokens ARE non-empty is a fact about their regexes, monitored on every recorded call (`mat.nonempty_tokens`,
+  `mext.inputs_nonempty`, `mext.nonempty_out`) and, at the output, by the pipeline oracle itself (`0 ≤ start ≤ end`).
+  A percentage result can be empty (`percent_restore_may_be_empty`).
+* "text equals the normalised slice": `spanOK` / `norm` (Model/Preprocess.lean) are the predicate the pipeline oracle
+  evaluates (driver op `sp.ok`, compared with the Python predicate on every entity); `spanOK_of_preprocessed_slice`
+  derives it from what the text theorems give (`text = slice of the preprocessed query`, inside, non-empty) under ONE
+  table hypothesis — the normalisation absorbs the preprocessing code point by code point — which the unit
+  correspondence checks for all 1 112 064 code points each run (`preprocess:norm-absorbs-preprocess`).
 -/
 namespace RTV.Preprocess
 open RTV.Py
@@ -397,5 +411,90 @@ theorem parser_push_pop_index_counterexample :
 
 example : ∃ f : Facts, f.kind = .since ∧ f.around = true ∧ f.kindBegin = true ∧ f.kindM.1 = 0 ∧ f.isAfter = false :=
   ⟨⟨.since, (0, 5), true, true, (1, 6), false⟩, rfl, rfl, rfl, rfl, rfl⟩
+
+/-- date-time path, non-emptiness (1): `merge_all_tokens` keeps the length of the surviving token, so its results are
+non-empty exactly as far as the tokens are: every result of non-empty tokens (`start < end`) has `0 < length`. -/
+theorem mergeAllTokens_nonempty (src : Str) (ts : List Tk) (hne : ∀ t ∈ ts, t.start < t.stop) :
+    ∀ e ∈ mergeAllTokens src ts, 0 < e.len := by
+  intro e he
+  obtain ⟨t, ht, -, hl, -, -, -⟩ := mergeAllTokens_text src ts e he
+  have := hne t ht
+  rw [hl]; unfold Tk.length; split <;> omega
+
+/-- … and an EMPTY token (`Token(3, 3)`: nothing in `Token`, `merge_all_tokens` or `Tok.Inside` forbids it) comes out as
+an ExtractResult of length 0 with the empty text, for which `Model.parse` would report `end = start − 1 < start`: the
+range condition of C01 fails.  Non-emptiness on the date-time path is therefore a property of the sub-extractors'
+regexes (none of them matches the empty string; monitored per recorded call: `mat.nonempty_tokens`, `mext.nonempty_out`,
+and by the pipeline oracle `0 ≤ start ≤ end`), not of the merge code. -/
+theorem mergeAllTokens_empty_token_witness :
+    mergeAllTokens [97, 98, 99, 100, 101] [⟨3, 3, 0⟩] = [⟨3, 0, [], 0⟩] ∧ modelEnd 3 0 = 2 ∧ ¬ ((3 : Int) ≤ modelEnd 3 0) := by
+  decide
+
+/-- date-time path, non-emptiness (2): the merged extractor never shrinks an entity (`add_mod` only widens), so its
+results are non-empty when the sub-extractors' results are. -/
+theorem mergedExtract_nonempty (src : Str) (inputs : List (List ER)) (unspecific ambiguous : ER → Bool)
+    (ops : Nat → List ModOp) (calendar : ER → Bool)
+    (hin : ∀ l ∈ inputs, ∀ e ∈ l, e.start + e.len ≤ src.length ∧ e.text = sl src e.start e.len)
+    (hok : ∀ l ∈ inputs, ∀ e ∈ l, ModsOK src e (ops e.tag)) (hp : ∀ l ∈ inputs, ∀ e ∈ l, 0 < e.len) :
+    ∀ o ∈ mergedExtract src inputs unspecific ambiguous ops calendar, 0 < o.len := by
+  intro o ho
+  obtain ⟨-, -, l, hl, e, he, -, h1, h2⟩ := mergedExtract_spans src inputs unspecific ambiguous ops calendar hin hok o ho
+  have := hp l hl e he
+  omega
+
+/-- C01 on the date-time path, the chain in ONE statement: sub-extractor tokens that are non-empty and inside the
+(preprocessed) query → `merge_all_tokens` → the `add_to` chain, filters, `add_mod` (well-formed merges), sort → `Model.parse`'s
+`end = start + length − 1`: every entity satisfies `0 ≤ start ≤ end < |query|`, its text is the slice at its offsets. -/
+theorem datetime_path_span (src : Str) (toks : List (List Tk)) (unspecific ambiguous : ER → Bool)
+    (ops : Nat → List ModOp) (calendar : ER → Bool)
+    (ht : ∀ ts ∈ toks, ∀ t ∈ ts, t.start < t.stop ∧ t.stop ≤ src.length)
+    (hok : ∀ ts ∈ toks, ∀ e ∈ mergeAllTokens src ts, ModsOK src e (ops e.tag)) :
+    ∀ o ∈ mergedExtract src (toks.map (mergeAllTokens src)) unspecific ambiguous ops calendar,
+      (0 : Int) ≤ o.start ∧ (o.start : Int) ≤ modelEnd o.start o.len ∧ modelEnd o.start o.len < src.length ∧
+      o.text = sl src o.start o.len := by
+  have hin : ∀ l ∈ toks.map (mergeAllTokens src), ∀ e ∈ l, e.start + e.len ≤ src.length ∧ e.text = sl src e.start e.len := by
+    intro l hl e he
+    obtain ⟨ts, hts, rfl⟩ := List.mem_map.1 hl
+    obtain ⟨t, htm, -, -, -, htx, hb⟩ := mergeAllTokens_text src ts e he
+    exact ⟨hb (by have := (ht ts hts t htm).1; omega) (ht ts hts t htm).2, htx⟩
+  have hok' : ∀ l ∈ toks.map (mergeAllTokens src), ∀ e ∈ l, ModsOK src e (ops e.tag) := by
+    intro l hl e he
+    obtain ⟨ts, hts, rfl⟩ := List.mem_map.1 hl
+    exact hok ts hts e he
+  have hp : ∀ l ∈ toks.map (mergeAllTokens src), ∀ e ∈ l, 0 < e.len := by
+    intro l hl e he
+    obtain ⟨ts, hts, rfl⟩ := List.mem_map.1 hl
+    exact mergeAllTokens_nonempty src ts (fun t h => (ht ts hts t h).1) e he
+  intro o ho
+  obtain ⟨hb, htx, -⟩ := mergedExtract_spans src _ unspecific ambiguous ops calendar hin hok' o ho
+  have hl := mergedExtract_nonempty src _ unspecific ambiguous ops calendar hin hok' hp o ho
+  have := model_end o.start o.len src.length (by omega) (by omega) (by omega)
+  exact ⟨this.1, this.2.1, this.2.2.1, htx⟩
+
+/-- C01's predicate `spanOK` (Model/Preprocess.lean; the pipeline oracle evaluates it through the driver, `sp.ok`) CONNECTED
+with the text theorems: the extractors work on the preprocessed query `q.map g` (`g` = recode + lower-casing of one code
+point: the repaired, length-preserving `preprocess`) and emit `text = slice of the preprocessed query` with `0 < length`,
+inside the query; whenever the normalisation `f` of the property absorbs the preprocessing (`f (g c) = f c`: a fact about
+the tables) the reported `(start, end = start + length − 1, text)` satisfies `spanOK` on the ORIGINAL query. -/
+theorem spanOK_of_preprocessed_slice (f g : Nat → Nat) (sp : Nat → Bool) (q : Str) (start len : Nat) (text : Str)
+    (habs : ∀ c, f (g c) = f c) (h1 : 0 < len) (h2 : start + len ≤ q.length)
+    (ht : text = sl (q.map g) start len) :
+    RTV.Preprocess.spanOK (List.map f) sp q start (modelEnd start len) text = true := by
+  have e1 : sliceI q (start : Int) (modelEnd start len + 1) = sl q start len := by
+    have : modelEnd (start : Int) (len : Int) + 1 = ((start + len : Nat) : Int) := by unfold modelEnd; omega
+    rw [this, sliceI_nonneg]
+    have a : min start q.length = start := by omega
+    have b : min (start + len) q.length = start + len := by omega
+    rw [a, b]; unfold sl; congr 1; omega
+  have e2 : (sl (q.map g) start len).map f = (sl q start len).map f := by
+    unfold sl
+    rw [← List.map_drop, ← List.map_take, List.map_map]
+    congr 1
+    funext c; exact habs c
+  unfold RTV.Preprocess.spanOK
+  rw [e1, ht, e2]
+  have : (0 : Int) ≤ start ∧ (start : Int) ≤ modelEnd start len ∧ modelEnd (start : Int) len < q.length := by
+    unfold modelEnd; omega
+  simp [this]
 
 end RTV.Merged
